@@ -660,6 +660,24 @@ func (c *Ctx) lockLeakRule(rule string) {
 				_, isDefer := x.(*ssa.Defer)
 				return isDefer && isRelease(x)
 			}
+			// when the search continues in a caller, that caller's deferred unlock (registered before the
+			// call) runs at its rundefers
+			isReleaseUp := func(x ssa.Instruction) bool {
+				if isRelease(x) {
+					return true
+				}
+				rd, ok := x.(*ssa.RunDefers)
+				if !ok || rd.Parent() == fn {
+					return false
+				}
+				found := false
+				allInstrsRaw(rd.Parent(), func(y ssa.Instruction) {
+					if isDeferRelease(y) && y.Block().Dominates(rd.Block()) {
+						found = true
+					}
+				})
+				return found
+			}
 			ret := reachFrom(call, isReturn, isRelease)
 			if ret == nil {
 				c.ok(rule, construct, c.ipos(call), "released on every path to a return")
@@ -668,7 +686,7 @@ func (c *Ctx) lockLeakRule(rule string) {
 			// a helper may hand the held lock to its callers (e.g. lookup-and-lock): then every
 			// path of the enclosing activity must release it
 			if !p.activityRoot(fn) {
-				if ret = reachFromUp(call, isEnd, isRelease); ret == nil {
+				if ret = reachFromUp(call, isEnd, isReleaseUp); ret == nil {
 					c.ok(rule, construct, c.ipos(call), "returned held to the callers, which release it on every path")
 					return
 				}
